@@ -254,6 +254,34 @@ def check_history(ctx, pm, H):
             if pairs and not tainted:
                 ctx.violation("invariant-no-colliding-pair", "no two images equal on the seven identity attributes have different checksums",
                               case, observed=pairs[:4], expected="none")
+    # an Image OBJECT this manifest accepted is then offered to ANOTHER manifest (same header situation) that holds its
+    # rival: the second manifest's rule is about the second manifest
+    filed = sorted(set(j for ms in model.cells.values() for j in ms))
+    rivals = {0: 2, 2: 0, 9: 11, 11: 9, 12: 13, 13: 12, 1: 2, 14: 0}
+    cands = [j for j in filed if j in rivals]
+    if gated and cands and not tainted:
+        j = cands[len(H["ops"]) % len(cands)]
+        other = pm.Images()
+        F.fill_compose(other.compose, {"id": "Y-1-20200101.0", "type": "production", "date": "20200101", "respin": 0, "label": None, "final": False})
+        if sit != "constructed":
+            other.header.version = sit
+        case2 = {"pool": pool, "ops": H["ops"], "situation": sit, "second_manifest": {"holds": rivals[j], "offered": j}}
+        try:
+            other.add("Server", "x86_64", F.make_image(pm, other, pool[rivals[j]]["attrs"]))
+            try:
+                other.add("Server", "x86_64", objs[j])
+                got2 = "accept"
+            except ValueError:
+                got2 = "refuse"
+            ctx.count("object-offered-to-second-manifest")
+            bad = got2 != "refuse"
+            ctx.monitor("add-outcome", fired=bad)
+            if bad:
+                ctx.violation("add-outcome", "an add that would put two identity-equal images with different checksums into the manifest raises "
+                              "ValueError - also when the image object was accepted by another manifest before", case2, observed=got2,
+                              expected="refuse (the second manifest holds %s)" % pool[rivals[j]]["tag"])
+        except Exception as e:
+            ctx.note_add("second_manifest_case_skipped")
     # the written file is always current-version and must itself satisfy the rule
     case = {"pool": pool, "ops": H["ops"], "situation": sit, "step": len(H["ops"])}
     try:
